@@ -84,26 +84,26 @@ func (f *fAdapterTransport) Open() error {
 	go f.readLoop(f.closeSignal)
 	f.isOpen = true
 	f.closeChan = make(chan error, 1)
-	verifHook("life.open", f, 0, 0)
+	verifHook("life.open", f, verifChanID(f.closeSignal), 0)
 	return nil
 }
 
 func (f *fAdapterTransport) readLoop(closeSignal chan struct{}) {
-	verifHook("life.rl.start", f, 0, 0)
+	verifHook("life.rl.start", f, verifChanID(closeSignal), 0)
 	framedTransport := NewTFramedTransport(f.transport)
 	for {
 		frame, err := f.readFrame(framedTransport)
 		if err != nil {
-			verifHook("life.rl.err", f, 0, 0)
+			verifHook("life.rl.err", f, verifChanID(closeSignal), 0)
 			// First check if the transport was closed.
 			select {
 			case <-closeSignal:
 				// Transport was closed.
-				verifHook("life.rl.signalled", f, 0, 0)
+				verifHook("life.rl.signalled", f, verifChanID(closeSignal), 0)
 				return
 			default:
 			}
-			verifHook("life.rl.closing", f, 0, 0)
+			verifHook("life.rl.closing", f, verifChanID(closeSignal), 0)
 
 			if err, ok := err.(thrift.TTransportException); ok && err.TypeId() == TRANSPORT_EXCEPTION_END_OF_FILE {
 				// EOF indicates remote peer disconnected.
@@ -160,10 +160,10 @@ func (f *fAdapterTransport) close(cause error) error {
 func (f *fAdapterTransport) closeGeneration(generation chan struct{}, cause error) error {
 	f.mu.Lock()
 	defer f.mu.Unlock()
-	verifHook("life.close.enter", f, 0, 0)
+	verifHook("life.close.enter", f, verifChanID(generation), 0)
 
 	if !f.isOpen || (generation != nil && generation != f.closeSignal) {
-		verifHook("life.close.notopen", f, 0, 0)
+		verifHook("life.close.notopen", f, verifChanID(generation), 0)
 		return thrift.NewTTransportException(TRANSPORT_EXCEPTION_NOT_OPEN, "Transport not open")
 	}
 
@@ -196,7 +196,7 @@ func (f *fAdapterTransport) closeGeneration(generation chan struct{}, cause erro
 	}
 
 	f.isOpen = false
-	verifHook("life.close.done", f, 0, 0)
+	verifHook("life.close.done", f, verifChanID(generation), 0)
 	return nil
 }
 
